@@ -401,7 +401,7 @@ KNOWN_DYNAMIC = {
     # (function short name, construct) -> modelling
     ("Point.__setitem__", "setattr"): "setattr(self, 'xyz'[item], value) = write to self.x|y|z",
 }
-ALLOWED_DECORATORS = {"classmethod"}
+ALLOWED_DECORATORS = {"classmethod", "property"}  # property: read-only getters (E1 / E3 evaluate the getter at the attribute read)
 
 
 class Repo:
@@ -440,6 +440,8 @@ class Repo:
             self.modules[name] = Module(self, name, p, is_pkg)
         self._inline_named_constants()
         self._positional_calls()
+        self._inline_private_helpers()
+        self._unroll_literal_loops()
         self._inline_field_aliases()
         self._short_index: Dict[str, List[FunctionInfo]] = {}
         for fi in self.functions():
@@ -488,6 +490,431 @@ class Repo:
         for fi in list(self.functions()):
             for i, st in enumerate(fi.node.body):
                 fi.node.body[i] = R(fi).visit(st)
+            ast.fix_missing_locations(fi.node)
+
+    def _inline_private_helpers(self):
+        """Calls of small PRIVATE module-level helpers (`_name`) are read as the helper's body at the call site -- the inverse
+        of "extract function", the most common refactoring there is.  Exact under the conditions checked here:
+          * the helper is a plain module-level function of the package (no generator, no decorator, no *args / **kwargs, no
+            nested function, no `global`), not recursive (directly or through other inlined helpers), at most 40 statements;
+          * EXPRESSION helpers (straight-line `x = e` statements and one final `return e`) are inlined wherever they are
+            called with positional arguments; STATEMENT helpers (any control flow, `raise` anywhere, but `return` only as the
+            last top-level statement, or not at all) are inlined where the call is a whole statement: `f(..)`,
+            `x = f(..)`, `x, y = f(..)`, `return f(..)`;
+          * parameters are replaced by the argument when the argument is a name / constant / attribute chain of a name and
+            the parameter is never assigned in the helper, otherwise the argument is bound to a fresh local first
+            (evaluation order and aliasing as in a call); the helper's locals get fresh names.
+        The helpers stay defined (they may also be passed around by name).  Diagnostics inside inlined code carry the
+        helper's own line numbers when it lives in the caller's module, the call's line otherwise."""
+        import copy
+        cands: Dict[str, FunctionInfo] = {}
+        for m in self.core_modules():
+            for f in m.functions.values():
+                n = f.node
+                if not f.name.startswith("_") or f.name.startswith("__") or f.is_generator or n.decorator_list:
+                    continue
+                a = n.args
+                if a.vararg or a.kwarg or a.kwonlyargs or a.posonlyargs:
+                    continue
+                if any(isinstance(x, (ast.FunctionDef, ast.AsyncFunctionDef, ast.Lambda, ast.ClassDef, ast.Global, ast.Nonlocal,
+                                      ast.Yield, ast.YieldFrom, ast.Await, ast.Try, ast.With))
+                       for x in ast.walk(n) if x is not n):
+                    continue
+                body = [s_ for s_ in n.body if not (isinstance(s_, ast.Expr) and isinstance(s_.value, ast.Constant))]
+                if not body or sum(1 for _ in ast.walk(n) if isinstance(_, ast.stmt)) > 40:
+                    continue
+                rets = [x for x in ast.walk(n) if isinstance(x, ast.Return)]
+                if any(r is not body[-1] for r in rets):
+                    # early returns inside if / else nests are expressible (single-exit form, see _single_exit); returns inside
+                    # loops are not
+                    if any(isinstance(x, (ast.For, ast.While)) and any(isinstance(y, ast.Return) for y in ast.walk(x)) for x in ast.walk(n)):
+                        continue
+                    if sum(1 for x in ast.walk(n) if isinstance(x, ast.If) and any(isinstance(y, ast.Return) for y in ast.walk(x))) > 5:
+                        continue
+                # free names must mean the same at the call site: resolved per call site below
+                cands[f.qual] = f
+
+        def callees(f: FunctionInfo) -> Set[str]:
+            out = set()
+            for c in ast.walk(f.node):
+                if isinstance(c, ast.Call) and isinstance(c.func, ast.Name):
+                    b = f.resolve(c.func.id)
+                    if b is not None and b.kind == "func" and b.target.qual in cands:
+                        out.add(b.target.qual)
+            return out
+        # drop helpers on a call cycle
+        graph = {q: callees(f) for q, f in cands.items()}
+        changed = True
+        while changed:
+            changed = False
+            for q in list(cands):
+                seen, todo = set(), list(graph[q])
+                while todo:
+                    x = todo.pop()
+                    if x == q:
+                        del cands[q]
+                        changed = True
+                        break
+                    if x not in seen and x in graph:
+                        seen.add(x)
+                        todo.extend(graph[x])
+                if changed:
+                    graph = {k: v & set(cands) for k, v in graph.items() if k in cands}
+                    break
+        if not cands:
+            return
+        counter = [0]
+
+        def simple_arg(a) -> bool:
+            """an argument that may be written out once per use of the parameter: reading it has no effect and costs
+            nothing observable (names, constants, attribute chains, indexing, arithmetic, len())"""
+            if isinstance(a, (ast.Name, ast.Constant)):
+                return True
+            if isinstance(a, ast.Attribute):
+                return simple_arg(a.value)
+            if isinstance(a, ast.Subscript):
+                return simple_arg(a.value) and simple_arg(a.slice)
+            if isinstance(a, ast.BinOp):
+                return simple_arg(a.left) and simple_arg(a.right)
+            if isinstance(a, ast.UnaryOp):
+                return simple_arg(a.operand)
+            if isinstance(a, ast.Tuple):
+                return all(simple_arg(x) for x in a.elts)
+            if isinstance(a, ast.Call) and isinstance(a.func, ast.Name) and a.func.id == "len" and len(a.args) == 1 and not a.keywords:
+                return simple_arg(a.args[0])
+            return False
+
+        def body_of(h: FunctionInfo):
+            return [s_ for s_ in h.node.body if not (isinstance(s_, ast.Expr) and isinstance(s_.value, ast.Constant))]
+
+        def is_expression_helper(h: FunctionInfo) -> bool:
+            b = body_of(h)
+            return isinstance(b[-1], ast.Return) and b[-1].value is not None and all(
+                isinstance(x, ast.Assign) and len(x.targets) == 1 and isinstance(x.targets[0], ast.Name) for x in b[:-1])
+
+        def same_bindings(caller: FunctionInfo, h: FunctionInfo):
+            """{name: alias} for the free names of the helper (module-level functions, classes, constants, imports) that do
+            NOT mean the same thing in the caller's module: the inlined copy refers to them through an alias that is bound,
+            in the caller's module, to the helper's own binding.  None when a free name cannot be resolved at all."""
+            import builtins as _b
+            local = set(h.params) | {x.id for x in ast.walk(h.node) if isinstance(x, ast.Name) and isinstance(x.ctx, ast.Store)}
+            alias: Dict[str, str] = {}
+            for x in ast.walk(h.node):
+                if isinstance(x, ast.Name) and isinstance(x.ctx, ast.Load) and x.id not in local and x.id not in alias:
+                    bh, bc = h.resolve(x.id), caller.resolve(x.id)
+                    if bh is None:
+                        if bc is None and hasattr(_b, x.id):
+                            continue
+                        if bc is None:
+                            continue  # unresolved in both (reported elsewhere)
+                        return None  # a builtin in the helper, shadowed in the caller's module
+                    if bc is not None and bh.kind == bc.kind and (bh.target is bc.target or (
+                            bh.kind == "ext" and str(bh.target) == str(bc.target)) or (
+                            bh.kind == "var" and bc.kind == "var" and bh.target[0] is bc.target[0] and bh.target[1] == bc.target[1])):
+                        continue
+                    if bc is None and x.id not in caller.module.functions and x.id not in caller.module.classes \
+                            and x.id not in caller.module.assigns and not hasattr(_b, x.id):
+                        # the caller's module simply does not know the name: it gets the helper's binding under the same name
+                        caller.module._cache[x.id] = bh
+                        continue
+                    nm = "_from_%s_%s" % (h.module.name.split(".")[-1], x.id)
+                    prev = caller.module._cache.get(nm)
+                    if prev is not None and prev is not bh and not (prev.kind == bh.kind and prev.target is bh.target):
+                        return None
+                    caller.module._cache[nm] = bh
+                    alias[x.id] = nm
+            return alias
+
+        def instantiate(caller: FunctionInfo, h: FunctionInfo, call: ast.Call, keep_returns: bool = False, unpack: int = 0):
+            """(prologue statements, body statements without the final return, return expression or None)"""
+            counter[0] += 1
+            k = counter[0]
+            # (function-level imports of the helper are not copied: same_bindings() has established that the caller sees the
+            # same objects under the same names)
+            b = [copy.deepcopy(x) for x in body_of(h) if not isinstance(x, (ast.Import, ast.ImportFrom))]
+            rets_ = [x for st_ in b for x in ast.walk(st_) if isinstance(x, ast.Return)]
+            early = any(r is not b[-1] for r in rets_)
+            if early and not keep_returns:
+                ar = unpack if (unpack and all(isinstance(r.value, ast.Tuple) and len(r.value.elts) == unpack for r in rets_)) else None
+                b = _single_exit(b, ar)
+            assigned = {x.id for st in b for x in ast.walk(st) if isinstance(x, ast.Name) and isinstance(x.ctx, (ast.Store, ast.Del))}
+            uses: Dict[str, int] = {}
+            for st in b:
+                for x in ast.walk(st):
+                    if isinstance(x, ast.Name) and isinstance(x.ctx, ast.Load):
+                        uses[x.id] = uses.get(x.id, 0) + 1
+            ren: Dict[str, ast.AST] = {}
+            pro = []
+            for p_, a_ in zip(h.params, call.args):
+                if p_ not in assigned and (simple_arg(a_) or uses.get(p_, 0) <= 1):
+                    ren[p_] = a_
+                else:
+                    nm = "_inl%d_%s" % (k, p_)
+                    pro.append(ast.Assign(targets=[ast.Name(id=nm, ctx=ast.Store())], value=copy.deepcopy(a_)))
+                    ren[p_] = ast.Name(id=nm, ctx=ast.Load())
+            for nm in assigned:
+                if nm not in h.params:
+                    ren[nm] = ast.Name(id="_inl%d_%s" % (k, nm), ctx=ast.Load())
+            for nm, al in (same_bindings(caller, h) or {}).items():
+                if nm not in ren:
+                    ren[nm] = ast.Name(id=al, ctx=ast.Load())
+            same_mod = caller.module is h.module
+
+            class Sub(ast.NodeTransformer):
+                def visit_Name(self, n):
+                    r = ren.get(n.id)
+                    if r is None:
+                        return n
+                    if isinstance(n.ctx, ast.Load):
+                        return copy.deepcopy(r)
+                    if isinstance(r, ast.Name):
+                        return ast.Name(id=r.id, ctx=n.ctx)
+                    return n
+            out = [Sub().visit(st) for st in b]
+            for st in pro + out:
+                for x in ast.walk(st):
+                    if not same_mod or not hasattr(x, "lineno"):
+                        ast.copy_location(x, call)
+            ret = None
+            if early and keep_returns:
+                # `return helper(..)`: the helper's own returns are the caller's returns (a path that falls off the end of
+                # the helper returns None)
+                falls = not isinstance(out[-1], (ast.Return, ast.Raise))
+                return pro, out, (ast.Constant(value=None) if falls else KEEP)
+            if out and isinstance(out[-1], ast.Return):
+                ret = out[-1].value
+                out = out[:-1]
+            return pro, out, ret
+
+        RESULT = "_inl_result"
+        KEEP = ast.Constant(value="\0keep-returns")
+
+        def _single_exit(stmts, arity=None):
+            """the same statements with every `return e` turned into `_inl_result = e` and the code after an if that returns
+            moved into the branches that fall through; ends with `return _inl_result` (every path ends in a return or a raise)"""
+            def conv(L):
+                for i, st in enumerate(L):
+                    if isinstance(st, ast.Return):
+                        val = st.value if st.value is not None else ast.Constant(value=None)
+                        if arity is not None:
+                            # the call is unpacked (`u, v, flag = helper(..)`) and every return is a tuple display: one result
+                            # variable per element, so that a constant flag stays a constant
+                            return L[:i] + [ast.copy_location(ast.Assign(targets=[ast.Name(id="%s_%d" % (RESULT, j), ctx=ast.Store())], value=x), st)
+                                            for j, x in enumerate(val.elts)]
+                        return L[:i] + [ast.copy_location(ast.Assign(targets=[ast.Name(id=RESULT, ctx=ast.Store())], value=val), st)]
+                    if isinstance(st, ast.Raise):
+                        return L[:i + 1]
+                    if isinstance(st, ast.If) and any(isinstance(y, ast.Return) for y in ast.walk(st)):
+                        rest = L[i + 1:]
+                        new_if = ast.copy_location(ast.If(test=st.test, body=conv(list(st.body) + [copy.deepcopy(x) for x in rest]),
+                                                          orelse=conv(list(st.orelse) + [copy.deepcopy(x) for x in rest])), st)
+                        if not new_if.body:
+                            new_if.body = [ast.copy_location(ast.Pass(), st)]
+                        return L[:i] + [new_if]
+                if arity is not None:
+                    return L + [ast.Raise(exc=ast.Call(func=ast.Name(id="TypeError", ctx=ast.Load()), args=[], keywords=[]), cause=None)]  # None is not unpackable
+                return L + [ast.Assign(targets=[ast.Name(id=RESULT, ctx=ast.Store())], value=ast.Constant(value=None))]
+            out = conv(list(stmts))
+            if arity is not None:
+                out.append(ast.Return(value=ast.Tuple(elts=[ast.Name(id="%s_%d" % (RESULT, j), ctx=ast.Load()) for j in range(arity)], ctx=ast.Load())))
+            else:
+                out.append(ast.Return(value=ast.Name(id=RESULT, ctx=ast.Load())))
+            for x in out:
+                ast.fix_missing_locations(x)
+            return out
+
+        def inlinable_call(caller: FunctionInfo, c) -> Optional[FunctionInfo]:
+            if not (isinstance(c, ast.Call) and isinstance(c.func, ast.Name) and not c.keywords
+                    and not any(isinstance(a, ast.Starred) for a in c.args)):
+                return None
+            b = caller.resolve(c.func.id)
+            if b is None or b.kind != "func" or b.target.qual not in cands or b.target is caller:
+                return None
+            h = b.target
+            if len(c.args) < len(h.params):
+                ds = list(h.defaults)
+                missing = h.params[len(c.args):]
+                dmap = dict(zip(h.params[len(h.params) - len(ds):], ds))
+                import builtins as _bi
+                if all(m_ in dmap and (isinstance(dmap[m_], ast.Constant) or (
+                        isinstance(dmap[m_], ast.Name) and hasattr(_bi, dmap[m_].id) and h.resolve(dmap[m_].id) is None
+                        and caller.resolve(dmap[m_].id) is None)) for m_ in missing):
+                    c.args = list(c.args) + [copy.deepcopy(dmap[m_]) for m_ in missing]  # the defaults, written out
+            if len(c.args) != len(h.params) or same_bindings(caller, h) is None:
+                return None
+            if caller.qual in cands and h.qual in graph.get(caller.qual, ()) and False:
+                return None
+            return h
+
+        def rewrite_block(caller: FunctionInfo, stmts: list, depth: int) -> list:
+            out = []
+            for st in stmts:
+                # nested blocks first
+                for fld in ("body", "orelse", "finalbody"):
+                    L = getattr(st, fld, None)
+                    if isinstance(L, list) and L and isinstance(L[0], ast.stmt):
+                        setattr(st, fld, rewrite_block(caller, L, depth))
+                if isinstance(st, ast.Try):
+                    for h_ in st.handlers:
+                        h_.body = rewrite_block(caller, h_.body, depth)
+                call = st.value if isinstance(st, (ast.Expr, ast.Assign, ast.Return)) else None
+                h = inlinable_call(caller, call) if call is not None and depth < 3 else None
+                if h is not None and isinstance(st, ast.Return) and len(h.params) == 2 and len(caller.params) == 2 and caller.cls is None \
+                        and all(isinstance(a_, ast.Name) for a_ in call.args):
+                    # `return sub(x, y)` in a two-operand function: a dispatch edge to a (sub-)handler of the same operands --
+                    # the dispatch rules (C04, C10, C11) follow these edges themselves and want to see them
+                    h = None
+                if h is not None and not is_expression_helper(h):
+                    n_unpack = len(st.targets[0].elts) if (isinstance(st, ast.Assign) and len(st.targets) == 1 and isinstance(st.targets[0], ast.Tuple)
+                                                          and all(isinstance(t_, ast.Name) for t_ in st.targets[0].elts)) else 0
+                    pro, body, ret = instantiate(caller, h, call, keep_returns=isinstance(st, ast.Return), unpack=n_unpack)
+                    body = rewrite_block(caller, pro + body, depth + 1)
+                    if ret is KEEP:
+                        tail = []
+                    elif isinstance(st, ast.Expr):
+                        tail = []
+                    elif isinstance(st, ast.Assign) and len(st.targets) == 1 and isinstance(st.targets[0], ast.Tuple) and isinstance(ret, ast.Tuple) \
+                            and len(ret.elts) == len(st.targets[0].elts) and all(isinstance(t_, ast.Name) for t_ in st.targets[0].elts):
+                        # u, v = helper(..) with `return e1, e2`: element-wise (the returned expressions are the helper's fresh locals)
+                        tail = [ast.copy_location(ast.Assign(targets=[t_], value=v_), st) for t_, v_ in zip(st.targets[0].elts, ret.elts)]
+                    elif isinstance(st, ast.Assign):
+                        tail = [ast.copy_location(ast.Assign(targets=st.targets, value=ret if ret is not None else ast.Constant(value=None)), st)]
+                    else:
+                        tail = [ast.copy_location(ast.Return(value=ret if ret is not None else ast.Constant(value=None)), st)]
+                    new = body + tail
+                    for x in new:
+                        ast.fix_missing_locations(x)
+                    out.extend(new)
+                    continue
+                out.append(expr_inline(caller, st, depth))
+            return out
+
+        def expr_inline(caller: FunctionInfo, st, depth: int):
+            class E(ast.NodeTransformer):
+                def visit_Call(self_, c):
+                    self_.generic_visit(c)
+                    h = inlinable_call(caller, c) if depth < 3 else None
+                    if h is not None and is_expression_helper(h):
+                        pro, body, ret = instantiate(caller, h, c)
+                        if pro:
+                            return c  # an argument would have to be bound first: leave the call
+                        # expand the helper's straight-line locals into its return expression
+                        defs = {}
+                        for a_ in body:
+                            v = a_.value
+                            for nm, dv in list(defs.items()):
+                                v = _subst_name(v, nm, dv)
+                            defs[a_.targets[0].id] = v
+                        for nm, dv in defs.items():
+                            ret = _subst_name(ret, nm, dv)
+                        return ast.copy_location(ret, c)
+                    return c
+
+                def visit_FunctionDef(self_, n):
+                    return n
+
+                def visit_Lambda(self_, n):
+                    return n
+            # only the statement's own expressions (nested blocks were handled by rewrite_block)
+            for fld, val in ast.iter_fields(st):
+                if fld in ("body", "orelse", "finalbody", "handlers"):
+                    continue
+                if isinstance(val, ast.AST):
+                    setattr(st, fld, E().visit(val))
+                elif isinstance(val, list):
+                    setattr(st, fld, [E().visit(v) if isinstance(v, ast.AST) else v for v in val])
+            return st
+
+        def _subst_name(e, name, repl):
+            class S_(ast.NodeTransformer):
+                def visit_Name(self_, n):
+                    if n.id == name and isinstance(n.ctx, ast.Load):
+                        return copy.deepcopy(repl)
+                    return n
+            return S_().visit(copy.deepcopy(e))
+
+        # callers: every function of the core modules; helpers that call helpers are expanded on demand (depth-limited,
+        # instantiate() copies the helper's ORIGINAL body, so the order of processing does not matter)
+        originals = {q: copy.deepcopy(f.node.body) for q, f in cands.items()}
+        for fi in list(self.functions(include_visualization=False)):
+            fi.node.body = rewrite_block(fi, fi.node.body, 0)
+            ast.fix_missing_locations(fi.node)
+        for fi in self.functions():
+            fi._local_imports = None  # (a spliced helper may have brought a function-level import with it)
+
+    def _unroll_literal_loops(self):
+        """`for x, t in zip((a, b), (Point, Vector)): body` and `for x in (a, b): body` -- a loop over a literal tuple / list (or a
+        zip of literal tuples of equal length) of at most 8 simple items, without break / continue / else, whose body does not
+        assign the loop variables -- is the sequence of its iterations with the items written in place of the variables.
+        (Inlined checking helpers such as `_require_types((a, b), (Point, Vector), ...)` produce exactly such loops.)"""
+        import copy
+        from .confinement import unroll_items
+
+        def simple(a) -> bool:
+            if isinstance(a, ast.Tuple):
+                return all(simple(x) for x in a.elts)  # e.g. a tuple of classes for isinstance
+            while isinstance(a, ast.Attribute):
+                a = a.value
+            return isinstance(a, (ast.Name, ast.Constant))
+
+        def items_of(lp: ast.For):
+            it = lp.iter
+            if isinstance(it, ast.Call) and isinstance(it.func, ast.Name) and it.func.id == "zip" and not it.keywords and it.args \
+                    and all(isinstance(a, (ast.Tuple, ast.List)) for a in it.args) and len({len(a.elts) for a in it.args}) == 1:
+                fake = ast.For(target=lp.target, iter=ast.Tuple(elts=[ast.Tuple(elts=list(col), ctx=ast.Load()) for col in zip(*[a.elts for a in it.args])],
+                                                                 ctx=ast.Load()), body=lp.body, orelse=lp.orelse)
+                return unroll_items(fake)
+            if isinstance(it, (ast.Tuple, ast.List)):
+                return unroll_items(lp)
+            return None
+
+        def rewrite(fi, stmts):
+            out = []
+            for st in stmts:
+                for fld in ("body", "orelse", "finalbody"):
+                    L = getattr(st, fld, None)
+                    if isinstance(L, list) and L and isinstance(L[0], ast.stmt):
+                        setattr(st, fld, rewrite(fi, L))
+                if isinstance(st, ast.For) and not st.orelse:
+                    items = items_of(st)
+                    tnames = [x.id for x in ast.walk(st.target) if isinstance(x, ast.Name)]
+                    assigned = {x.id for b in st.body for x in ast.walk(b) if isinstance(x, ast.Name) and isinstance(x.ctx, (ast.Store, ast.Del))}
+                    # the loop variables keep their last value after the loop: a loop whose variables are read elsewhere stays
+                    inside = sum(1 for x in ast.walk(st) if isinstance(x, ast.Name) and x.id in tnames and isinstance(x.ctx, ast.Load))
+                    total = sum(1 for x in ast.walk(fi.node) if isinstance(x, ast.Name) and x.id in tnames and isinstance(x.ctx, ast.Load))
+                    used_after = total != inside
+                    if items is not None and 0 < len(items) <= 8 and not (set(tnames) & assigned) and not used_after:
+                        flat_ok = True
+                        subs = []
+                        for elt in items:
+                            if isinstance(st.target, ast.Name):
+                                pairs = [(st.target.id, elt)]
+                            elif isinstance(st.target, (ast.Tuple, ast.List)) and isinstance(elt, (ast.Tuple, ast.List)) \
+                                    and len(elt.elts) == len(st.target.elts) and all(isinstance(t, ast.Name) for t in st.target.elts):
+                                pairs = [(t.id, v) for t, v in zip(st.target.elts, elt.elts)]
+                            else:
+                                flat_ok = False
+                                break
+                            if not all(simple(v) for _, v in pairs):
+                                flat_ok = False
+                                break
+                            subs.append(dict(pairs))
+                        # the loop variables must not be read after the loop
+                        if flat_ok:
+                            for sub in subs:
+                                class S_(ast.NodeTransformer):
+                                    def visit_Name(self_, n):
+                                        if isinstance(n.ctx, ast.Load) and n.id in sub:
+                                            return ast.copy_location(copy.deepcopy(sub[n.id]), n)
+                                        return n
+                                out.extend(S_().visit(copy.deepcopy(b)) for b in st.body)
+                            continue
+                out.append(st)
+            return out
+
+        for fi in list(self.functions(include_visualization=False)):
+            # loop variables that are read outside their loop forbid the substitution form for that function
+            fi.node.body = rewrite(fi, fi.node.body)
             ast.fix_missing_locations(fi.node)
 
     def _inline_field_aliases(self):
@@ -790,14 +1217,19 @@ class Repo:
             if (who, what) == ("Point.__setitem__", "setattr"):
                 fi = self.fn("Point.__setitem__")
                 calls = [n for n in ast.walk(fi.node) if isinstance(n, ast.Call) and norm_text(n.func) == "setattr"]
+                from .astutil import single_defs
+                sd = single_defs(fi.node, fi.params)
                 for c in calls:
+                    a1 = c.args[1] if len(c.args) == 3 else None
+                    if isinstance(a1, ast.Name) and a1.id in sd:
+                        a1 = sd[a1.id]  # name = "xyz"[item]; setattr(self, name, value)
                     ok = (
                         len(c.args) == 3
                         and isinstance(c.args[0], ast.Name)
                         and c.args[0].id == fi.self_name
-                        and isinstance(c.args[1], ast.Subscript)
-                        and isinstance(c.args[1].value, ast.Constant)
-                        and set(str(c.args[1].value.value)) <= set("xyz")
+                        and isinstance(a1, ast.Subscript)
+                        and isinstance(a1.value, ast.Constant)
+                        and set(str(a1.value.value)) <= set("xyz")
                     )
                     if not ok:
                         raise AnalysisError("Point.__setitem__: setattr no longer has the modelled shape (%s)" % where)
